@@ -324,14 +324,10 @@ Proof.
   unfold ValueSearch.search_std. rewrite E. simpl. split; reflexivity.
 Qed.
 
-(* the accelerated client behaves like the standard one when its local record is valid *)
+(* the accelerated client validates its local record like the standard one *)
 Lemma search_fullrt_eq_std self local resps nvals :
-  (forall v, local = Some v -> valid k v = true) ->
   search_fullrt self local resps nvals = search_std self local resps nvals.
-Proof.
-  intro HL. unfold ValueSearch.search_fullrt, ValueSearch.search_std, local_fullrt, ValueSearch.local_std.
-  destruct local as [v|]; [|reflexivity]. rewrite (HL v eq_refl). reflexivity.
-Qed.
+Proof. reflexivity. Qed.
 
 (* ---- dual merge ------------------------------------------------------------------------ *)
 Definition m_best_head (st : option val * list val) : Prop := fst st = hd_error (snd st).
